@@ -172,14 +172,15 @@ def run_task(task):
                         pass
 
         if prefix is None:
-            # direct recursion: its depth grows with the input (each level costs an interpreter stack frame), so the
-            # function can raise RecursionError however correct its result is -- unless the contract bounds the depth
+            # contracts that declare `no_recursion = True` (the function walks a structure as deep as the input):
+            # direct recursion costs an interpreter stack frame per level, so the function could raise RecursionError
+            # however correct its result is
             import ast as _ast
             short = target.rsplit(".", 1)[-1]
             rec_calls = [n for n in _ast.walk(fn.node) if isinstance(n, _ast.Call) and (
                 (isinstance(n.func, _ast.Attribute) and n.func.attr == short and isinstance(n.func.value, _ast.Name) and n.func.value.id == "self")
                 or (isinstance(n.func, _ast.Name) and n.func.id == short))]
-            if rec_calls and not getattr(contract.holder, "recursion_bounded", None):
+            if rec_calls and getattr(contract.holder, "no_recursion", False):
                 from .engine import Obligation
                 ctx.obligations.append(Obligation("%s/termination:recursion-depth-independent-of-input" % target, "termination", "failed", 0.0,
                                                   "syntactic", "calls itself at line %d: recursion depth is not bounded by the contract, "
